@@ -21,7 +21,7 @@ ID = 'C20'
 
 MANIFEST = dict(
     technique='explicit-state exploration of all transcribe-batch histories (cached / uncached) on live real TransformerOCR models with random weights; differential oracles: line decoded alone by a pristine copy, and the teacher-forced masked forward pass',
-    text='Bounded exhaustive: for each of 6 (quick) / 18 (thorough) random-weight models (depth 1-3, heads 1/2/4, width 16/32) every history of up to 2 (quick) / 3 (thorough) events over 12 events (6 batches x cached/uncached) is executed on ONE live model (caches survive between calls); for the last event of every history each line\'s per-step scores must equal those of the line decoded alone by a pristine copy and those of the teacher-forced forward pass over the emitted symbols (1e-4), transcripts must agree, decoding must stop within the length cap and transcriptions must be free of boundary / ignore symbols. Added sub-sweeps: histories of run_ocr calls (1088 px padding) on one engine against a fresh engine and single lines, batches in which 255 / 256 / 257 lines survive the first step, 640 px lines running to the 160-step cap on 2-3 layer decoders (recomputed == cached == teacher-forced), and the network from build_net on 1920 / 2112 px crops.',
+    text='Bounded exhaustive: for each of 6 (quick) / 18 (thorough) random-weight models (depth 1-3, heads 1/2/4, width 16/32) every history of up to 2 (quick) / 3 (thorough) events over 12 events (6 batches x cached/uncached) is executed on ONE live model (caches survive between calls); for the last event of every history each line\'s per-step scores must equal those of the line decoded alone by a pristine copy and those of the teacher-forced forward pass over the emitted symbols (1e-4), transcripts must agree, decoding must stop within the length cap and transcriptions must be free of boundary / ignore symbols. Added sub-sweeps: histories of run_ocr calls (1088 px padding) on one engine against a fresh engine and single lines, batches in which 255 / 256 / 257 lines survive the first step, 640 px lines running to the 160-step cap on 2-3 layer decoders (recomputed == cached == teacher-forced), and the network from build_net on 1920 / 2112 px crops. Entry-point histories: every sequence of up to 2 (quick) / 3 (thorough) calls over run_ocr / transcribe_batch cached / uncached x 3 batches (incl. lines whose transcription is empty because they end at the first step) on one engine; the last call must equal the same call on a fresh engine and the uncached scores, and run_ocr\'s text must be exactly the decoded symbols.',
     note='Random weights (no trained model), CPU, small dimensions; the convolutional front-end is a stub; beam-search use of cache_index_select is not covered.',
     ref='3/C20')
 
@@ -175,6 +175,9 @@ def shards(tier):
             out.append({'big_model': mi, 'big': bi})
     for spec in LONGRUN_MODELS:
         out.append({'longrun': list(spec)})
+    for mi in range(len(MIX_MODELS)):
+        for first in range(len(MIX_EVENTS)):
+            out.append({'mix_model': mi, 'first': first})
     for w in (1920, 2112):
         out.append({'buildnet': w})
     return out
@@ -196,6 +199,12 @@ def run_shard(shard, ctx, tier):
         return
     if 'longrun' in shard:
         guarded_check(mod, {'longrun': shard['longrun']}, ctx)
+        return
+    if 'mix_model' in shard:
+        spec = MIX_MODELS[shard['mix_model']]
+        for L in range(1, b['ro_depth'] + 1):
+            for rest in itertools.product(range(len(MIX_EVENTS)), repeat=L - 1):
+                guarded_check(mod, {'model': list(spec), 'mixed': [shard['first']] + list(rest)}, ctx)
         return
     if 'buildnet' in shard:
         guarded_check(mod, {'buildnet': shard['buildnet']}, ctx)
@@ -278,6 +287,114 @@ def check_run_ocr(case, ctx):
     if len(hist) > 1 and RO_BATCHES[hist[-2]][0] > RO_BATCHES[hist[-1]][0] and len(RO_BATCHES[hist[-2]][1]) == len(RO_BATCHES[hist[-1]][1]):
         ctx.nontrivial((tuple(spec), tuple(hist)), 'run_ocr-narrower-batch-after-a-wider-one')
     ctx.tag('run_ocr-histories')
+
+
+MIX_BATCHES = ['full', 'with-empty', 'only-empty']          # two lines with text / a line with text and one that ends at the first step / the latter alone
+MIX_ENTRIES = ['run_ocr', 'transcribe_batch-cached', 'transcribe_batch']
+MIX_EVENTS = [(e, b) for e in MIX_ENTRIES for b in MIX_BATCHES]
+MIX_MODELS = [(2, 2, 16, 1, 'wide')]       # a model whose first symbol depends on the overall brightness of the line (found by enumeration, see mix_lines)
+
+
+def mix_image(seed):
+    """a 256 px line of one brightness level (seed * 37 mod 256) with +-20 noise"""
+    rng = np.random.RandomState(seed)
+    return np.clip((seed * 37) % 256 + rng.randint(-20, 21, size=(3, H, 256)), 0, 255).astype(np.uint8)
+
+_MIX = {}
+
+
+def mix_lines(spec):
+    """256 px line seeds 300.. split by whether run_ocr on the line alone gives the empty transcription (boundary symbol at the first step)"""
+    import contextlib
+    import io
+    import torch
+    key = tuple(spec)
+    if key not in _MIX:
+        text, empty = [], []
+        with torch.no_grad(), contextlib.redirect_stdout(io.StringIO()):
+            for sd in range(300, 420):
+                img = mix_image(sd)
+                eng = make_engine(copy.deepcopy(pristine(spec)))
+                outs, lg = eng.transcribe_batch(padded(np.stack([img])), is_cached=False)
+                lg = lg[0].numpy()
+                margin = np.sort(lg, axis=-1)[:, -1] - np.sort(lg, axis=-1)[:, -2]
+                if margin.min() < 1e-2:
+                    continue
+                (empty if int(lg[0].argmax()) == SB else text).append(sd)
+                if len(text) >= 3 and len(empty) >= 2:
+                    break
+        _MIX[key] = (text, empty)
+    return _MIX[key]
+
+
+def padded(nchw):
+    """what run_ocr makes of a batch narrower than 1088 px before it transcribes it (zeros on both sides)"""
+    out = np.zeros(nchw.shape[:3] + (1088,), dtype=np.float32)
+    s = (1088 - nchw.shape[3]) // 2
+    out[:, :, :, s:s + nchw.shape[3]] = nchw
+    return out
+
+
+def check_mixed(case, ctx):
+    """histories that mix the engine's entry points (run_ocr / transcribe_batch cached / uncached) on one engine object, with batches in which a line
+    ends at the very first step (the empty transcription)"""
+    import contextlib
+    import io
+    import torch
+    from mc.core import HarnessError
+    spec = case['model']
+    hist = [MIX_EVENTS[i] for i in case['mixed']]
+    text, empty = mix_lines(spec)
+    if len(text) < 3 or len(empty) < 2:
+        raise HarnessError(f'no suitable lines: {text} {empty}')
+    seeds = {'full': [text[0], text[1]], 'with-empty': [text[2], empty[0]], 'only-empty': [empty[1]]}
+    K = f'{ID}/entry-points'
+
+    def call(eng, entry, bname):
+        nchw = np.stack([mix_image(sd) for sd in seeds[bname]])
+        if entry == 'run_ocr':
+            dec, lg = eng.run_ocr(nchw.transpose(0, 2, 3, 1).copy())
+            return list(dec), np.asarray(lg)
+        outs, lg = eng.transcribe_batch(padded(nchw), is_cached=(entry == 'transcribe_batch-cached'))
+        return [[int(x) for x in o] for o in outs], lg.numpy()
+
+    desc = f'model {tuple(spec)}, one engine, calls in turn {hist} (entry point, batch of 256 px lines; seeds {seeds})'
+    with torch.no_grad(), contextlib.redirect_stdout(io.StringIO()), ctx.time_limit(120):
+        eng = make_engine(copy.deepcopy(pristine(spec)))
+        for entry, bname in hist:
+            res, lg = call(eng, entry, bname)
+        res0, lg0 = call(make_engine(copy.deepcopy(pristine(spec))), *hist[-1])
+        syms, lgp = call(make_engine(copy.deepcopy(pristine(spec))), 'transcribe_batch', hist[-1][1])
+    ctx.executed(len(hist) + 2)
+    ctx.state((tuple(spec), 'mixed', tuple(hist)))
+    n = min(lg.shape[1], lg0.shape[1])
+    if res != res0 or lg.shape != lg0.shape or float(np.abs(lg[:, :n] - lg0[:, :n]).max()) > TOL:
+        ctx.violation('independent-of-earlier-batches', f'{K}/depends-on-earlier-calls',
+                      f'{desc}: the last call gives {res} ({lg.shape[1]} steps); the same call on a fresh engine gives {res0} ({lg0.shape[1]} steps)')
+        return
+    entry, bname = hist[-1]
+    n = min(lg.shape[1], lgp.shape[1])
+    if float(np.abs(lg[:, :n] - lgp[:, :n]).max()) > TOL or lg.shape[1] != lgp.shape[1]:
+        ctx.violation('cached-equals-uncached', f'{K}/entry-point-changes-the-scores',
+                      f'{desc}: the scores of the last call differ from plain uncached transcription of the same (padded) batch')
+        return
+    chars = ['a', 'b', 'c']
+    want = [''.join(chars[c] for c in line) for line in syms] if entry == 'run_ocr' else syms
+    if res != want:
+        ctx.violation('free-of-boundary-symbols', f'{K}/run_ocr-text-differs-from-symbols',
+                      f'{desc}: the last call returns {res!r}; the symbols decoded for the lines are {syms}')
+        return
+    for li, sd in enumerate(seeds[bname]):
+        if (sd in empty) != (len(syms[li]) == 0):
+            ctx.violation('independent-of-other-lines', f'{K}/line-depends-on-its-batch',
+                          f'{desc}: line {li} (seed {sd}) is {"" if sd in empty else "not "}empty when decoded alone but gives {syms[li]} in this batch')
+            return
+    ctx.outcome(('mixed', entry, bname, tuple(len(x) for x in res)))
+    if len(hist) > 1 and hist[-2][0] == 'run_ocr' and entry != 'run_ocr' and len(seeds[hist[-2][1]]) == len(seeds[bname]):
+        ctx.nontrivial((tuple(spec), tuple(hist)), 'transcribe_batch-after-run_ocr-of-the-same-batch-size')
+    if entry == 'run_ocr' and bname != 'full':
+        ctx.nontrivial((tuple(spec), tuple(hist)), 'run_ocr-batch-with-an-empty-transcription')
+    ctx.tag('entry-point-histories')
 
 
 _POOL = {}
@@ -464,6 +581,8 @@ def check_case(case, ctx):
         return check_buildnet(case, ctx)
     if 'run_ocr' in case:
         return check_run_ocr(case, ctx)
+    if 'mixed' in case:
+        return check_mixed(case, ctx)
     if 'big' in case:
         return check_big(case, ctx)
     spec = case['model']
@@ -568,7 +687,7 @@ def describe(tier):
         'alphabets': {'batches(width, line seeds)': BATCHES, 'events': len(EVENTS)},
         'assumptions': ['scores compared within 1e-4 (float32)', 'transcripts compared only when every deciding arg-max margin exceeds 1e-3'],
         'min_nontrivial': 50,
-        'required_tags': ['long-run-compared-beyond-128-steps', 'network-from-build_net-on-the-widest-crops', 'run_ocr-histories', 'run_ocr-narrower-batch-after-a-wider-one', 'batch-at-a-byte-boundary', 'lines-finish-at-different-steps', 'line-hit-the-length-cap', 'previous-batch-of-same-size-and-width',
+        'required_tags': ['entry-point-histories', 'transcribe_batch-after-run_ocr-of-the-same-batch-size', 'run_ocr-batch-with-an-empty-transcription', 'long-run-compared-beyond-128-steps', 'network-from-build_net-on-the-widest-crops', 'run_ocr-histories', 'run_ocr-narrower-batch-after-a-wider-one', 'batch-at-a-byte-boundary', 'lines-finish-at-different-steps', 'line-hit-the-length-cap', 'previous-batch-of-same-size-and-width',
                           'previous-batch-of-same-size-other-width', 'cached-and-uncached-calls-mixed',
                           'line-finished-at-first-step-while-others-continue', 'ignore-symbol-emitted-mid-line'],
     }
